@@ -144,6 +144,34 @@ class Translator:
             ax.append(z3.And(app >= 0, app <= z3.RealVal("3.1415926535897932385")))
 
 
+_LIN_CACHE: Dict[int, bool] = {}
+
+
+def is_linear(e: Expr) -> bool:
+    """No products of two non-constant terms, no division by non-constants, no uninterpreted functions."""
+    r = _LIN_CACHE.get(e.id)
+    if r is not None:
+        return r
+    ok = True
+    stack = [e]
+    seen = set()
+    while stack:
+        x = stack.pop()
+        if x.id in seen:
+            continue
+        seen.add(x.id)
+        if x.op == "mul":
+            if sum(1 for a in x.args if a.op != "const") > 1:
+                ok = False
+                break
+        elif x.op in ("div", "fn"):
+            ok = False
+            break
+        stack.extend(a for a in x.args if isinstance(a, Expr))
+    _LIN_CACHE[e.id] = ok
+    return ok
+
+
 def _frac(v) -> Optional[Fraction]:
     if z3.is_int_value(v):
         return Fraction(v.as_long())
@@ -178,6 +206,10 @@ class Context:
         self.hyps: List[Expr] = []
         self.solver = z3.Solver()
         self.solver.set("timeout", timeout_ms)
+        # second solver holding only the linear hypotheses: most feasibility questions (sizes >= 2,
+        # spacing > 0, ...) are linear consequences, and nlsat is slow once rotations are in the context
+        self.lin = z3.Solver()
+        self.lin.set("timeout", 300)
         self._naux = 0
         self.queries = 0
         self.time = 0.0
@@ -196,12 +228,23 @@ class Context:
         z = self.tr.tr(h)
         self._sync_aux()
         self.solver.add(z)
+        if is_linear(h):
+            self.lin.add(z)
 
     def feasible(self, c: Expr) -> Optional[bool]:
         """Is hyps ∧ c satisfiable?  None = unknown."""
         t0 = time.time()
         z = self.tr.tr(c)
         self._sync_aux()
+        if is_linear(c):
+            self.lin.push()
+            self.lin.add(z)
+            r = self.lin.check()
+            self.lin.pop()
+            if r == z3.unsat:  # infeasible already under the linear hypotheses
+                self.queries += 1
+                self.time += time.time() - t0
+                return False
         self.solver.push()
         self.solver.add(z)
         r = self.solver.check()
@@ -213,6 +256,21 @@ class Context:
         if r == z3.unsat:
             return False
         return None
+
+    def lin_refutes(self, c: Expr) -> bool:
+        """True iff (linear hypotheses) ∧ c is unsatisfiable - a cheap sufficient test."""
+        if not is_linear(c):
+            return False
+        t0 = time.time()
+        z = self.tr.tr(c)
+        self._sync_aux()
+        self.lin.push()
+        self.lin.add(z)
+        r = self.lin.check()
+        self.lin.pop()
+        self.queries += 1
+        self.time += time.time() - t0
+        return r == z3.unsat
 
     def entails(self, c: Expr) -> Optional[bool]:
         f = self.feasible(E.not_(c))
